@@ -556,7 +556,7 @@ func (ex *Exec) mergeVals(conds []Term, vals []Val, what string) Val {
 			return Val{Poison: fmt.Sprintf("merge of different sorts for %s: %s vs %s", what, ts[i].Sort, cur.Sort)}
 		}
 	}
-	out := Val{T: ex.vc.Define("m_"+what, mergeTerms(conds, ts, 0))}
+	out := Val{T: ex.vc.Define("m_"+what, mergeTerms(ex.vc, conds, ts, 0))}
 	for _, v := range vals {
 		if v.Shared {
 			out.Shared = true
@@ -643,14 +643,14 @@ func (ex *Exec) mergeStates(conds []Term, sts []State) State {
 			out[c] = ts[0]
 			continue
 		}
-		out[c] = ex.vc.Define("mc_"+c.Name, mergeTerms(cds, ts, 0))
+		out[c] = ex.vc.Define("mc_"+c.Name, mergeTerms(ex.vc, cds, ts, 0))
 	}
 	return out
 }
 
 // mergeTerms: ite chain; struct values are merged field by field so that fields that are the same on every
 // path stay syntactically the same term (accessors then fold instead of being hidden behind an ite).
-func mergeTerms(cds []Term, ts []Term, depth int) Term {
+func mergeTerms(vc *VC, cds []Term, ts []Term, depth int) Term {
 	same := true
 	for _, t := range ts[1:] {
 		if t.S != ts[0].S {
@@ -668,13 +668,20 @@ func mergeTerms(cds []Term, ts []Term, depth int) Term {
 			for j, t := range ts {
 				sub[j] = FieldOf(t, i)
 			}
-			fs[i] = mergeTerms(cds, sub, depth+1)
+			fs[i] = mergeTerms(vc, cds, sub, depth+1)
 		}
 		return MkData(s, fs...)
 	}
 	r := ts[len(ts)-1]
 	for i := len(ts) - 2; i >= 0; i-- {
 		r = Ite(cds[i], ts[i], r)
+	}
+	if vc != nil && s.Kind == KData && (s.Role == "map" || s.Role == "slice") {
+		// containers are read inside quantifier patterns (hasKey / element terms); the solvers reject patterns that
+		// contain an if-then-else, so a merged container gets a name of its own with a defining equation
+		c := vc.Declare("mg", s)
+		vc.Assume(Eq(c, r), "merged container value")
+		return c
 	}
 	return r
 }
@@ -1263,6 +1270,23 @@ func (ex *Exec) rangeFacts(t Term, typ types.Type, depth int) []Term {
 			el := ex.rangeFacts(Select(mpVal(t), k), u.Elem(), 2)
 			if len(el) > 0 && !hasNestedQuantifier(el) {
 				out = append(out, Term{S: fmt.Sprintf("(forall ((q_rk %s)) (! %s :pattern (%s)))", t.Sort.Key.Name, And(el...).S, Select(mpVal(t), k).S), Sort: SBool})
+			}
+			// keys are values of the key type
+			if kf := ex.rangeFacts(k, u.Key(), 1); len(kf) > 0 {
+				out = append(out, Term{S: fmt.Sprintf("(forall ((q_rk %s)) (! (=> %s %s) :pattern (%s)))", t.Sort.Key.Name, Select(mpDom(t), k).S, And(kf...).S, Select(mpDom(t), k).S), Sort: SBool})
+			}
+			// map of maps: the same two facts for the inner maps, with both keys quantified
+			if im, ok := u.Elem().Underlying().(*types.Map); ok && t.Sort.Elem != nil && t.Sort.Elem.Key != nil {
+				inner := Select(mpVal(t), k)
+				k2 := Atom("q_rk2", t.Sort.Elem.Key)
+				var fs []Term
+				if el2 := ex.rangeFacts(Select(mpVal(inner), k2), im.Elem(), 2); len(el2) > 0 && !hasNestedQuantifier(el2) {
+					out = append(out, Term{S: fmt.Sprintf("(forall ((q_rk %s) (q_rk2 %s)) (! %s :pattern (%s)))", t.Sort.Key.Name, t.Sort.Elem.Key.Name, And(el2...).S, Select(mpVal(inner), k2).S), Sort: SBool})
+				}
+				if kf2 := ex.rangeFacts(k2, im.Key(), 1); len(kf2) > 0 {
+					fs = append(fs, Implies(Select(mpDom(inner), k2), And(kf2...)))
+					out = append(out, Term{S: fmt.Sprintf("(forall ((q_rk %s) (q_rk2 %s)) (! %s :pattern (%s)))", t.Sort.Key.Name, t.Sort.Elem.Key.Name, And(fs...).S, Select(mpDom(inner), k2).S), Sort: SBool})
+				}
 			}
 		}
 	}
